@@ -195,7 +195,7 @@ class Check:
         os.makedirs(d, exist_ok=True)
         path = f"{d}/{self.pid}-py-{self.seed}-{self.out_counter}.json"
         self.out_counter += 1
-        json.dump({"property": self.pid, "part": part, "message": msg, "case": case}, open(path, "w"), indent=1)
+        json.dump({"property": self.pid, "engine": "py", "part": part, "message": msg, "case": case}, open(path, "w"), indent=1)
         return path
 
     def regress(self, part, from_json, test_fn):
